@@ -260,8 +260,11 @@ theorem diff_refl (s : SchemaD) (u : UniqSchema s) (m : Nat) : diffSchema s s m 
     · rfl
     · intro f hf; exact find_isSome_of_uniq ArgD.name a.inputFields (u.inputs a hm) f hf
     · intro f hf; rw [u.inputs a hm f hf]; simp [safeIn_refl, defaultChanged_self]
+  have h0 : diffRootTypes s s = [] := by
+    unfold diffRootTypes
+    cases s.query <;> cases s.mutation <;> cases s.subscription <;> simp
   unfold diffSchema
-  simp [h1, h2, h3, h4, h5, h6, h7, h8, h9]
+  simp [h0, h1, h2, h3, h4, h5, h6, h7, h8, h9]
 
 
 /-! non-vacuity: a concrete schema satisfies `UniqSchema` -/
